@@ -63,15 +63,15 @@ func (c *srvConn) Close() error {
 }
 
 type c11Conn struct {
-	name      string
-	client    net.Conn
-	sent      int
-	responses int
-	forwarded int
-	replyCh   chan struct{}
-	inRT      chan struct{} // signalled when the round tripper is entered
+	name          string
+	client        net.Conn
+	sent          int
+	responses     int
+	forwarded     int
+	replyCh       chan struct{}
+	inRT          chan struct{} // signalled when the round tripper is entered
 	closedByProxy chan struct{}
-	vanished  bool
+	vanished      bool
 	everForwarded bool
 }
 
